@@ -137,7 +137,8 @@ Fixpoint ann_to_sexp (a : ann) : sexp :=
 
 Definition pfield_to_sexp (f : pfield) : sexp :=
   L [A (p_name f); ann_to_sexp (p_ann f); sOpt pyexpr_to_sexp (p_value f);
-     sOpt A (rhs_alias (p_value f))].
+     sOpt A (rhs_alias (p_value f));
+     sB (match rhs_default (p_value f) with DRequired => true | _ => false end)].
 
 Definition pclass_to_sexp (c : pclass) : sexp := L [A (c_name c); sList pfield_to_sexp (c_fields c)].
 
